@@ -69,7 +69,7 @@ CLAIMED = {
    note="Part of C35 only: LEB128 (full integer width; decoder buffers <= 11 bytes) and the instruction codec: for every instruction type found in bbq/opcode by go/types, Encode then DecodeInstruction returns the same instruction with the same operands and consumes exactly the encoding (operand arrays of length 0..2, thorough 3), plus PatchJumpBytecode. Compilation determinism is outside the claim (compiler over program ASTs is not encodable).", design="3 C35"),
  "C46": dict(
    text="Bounded symbolic model checking of the real rlp.ReadSize/DecodeString/DecodeList SSA: for every input of the stated lengths (all byte values, incl. 8-byte length prefixes up to 2^64-1) an SMT solver shows no run-time panic is reachable and acceptance/result equal an independent reference decoder; every feasible path is also replayed natively.",
-   note="Bounds: input length <= 10 (quick) / 14 (thorough) for strings and headers, <= 4 / 6 for unconstrained lists plus lists with a long-form first item up to 10 / 12 bytes. Trusted: go/ssa, my SSA->SMT executor (validated per path against the native build), z3/cvc5. atree array conversion in the Cadence wrapper is outside.",
+   note="Bounds: input length <= 10 (quick) / 14 (thorough) for strings and headers, <= 4 / 5 for unconstrained lists plus lists with a long-form first item up to 10 / 12 bytes. Trusted: go/ssa, my SSA->SMT executor (validated per path against the native build), z3/cvc5. atree array conversion in the Cadence wrapper is outside.",
    design="3 C46"),
 }
 
